@@ -190,10 +190,11 @@ def scase_coq(fd, prog, obs):
     return f"mkS {sa.coq_bool(fd)} {sa.coq_block(prog)} {blocks}"
 
 
-def acase_coq(fd, prog, steps, peaks, mused=None):
+def acase_coq(fd, prog, steps, peaks, mused=None, mscr=None):
     mused = mused if mused is not None else getattr(run_sequence, "mused", [])
+    mscr = mscr if mscr is not None else getattr(run_sequence, "mscr", [])
     st = sa.coq_list("AErr" if s is None else "AOk " + sa.coq_list(f"{i}%nat" for i in s) + f" {peaks[j]} "
-                     + sa.coq_list(f"{i}%nat" for i in mused[j])
+                     + sa.coq_list(f"{i}%nat" for i in mused[j]) + " " + sa.coq_list(f"{i}%nat" for i in mscr[j])
                      for j, s in enumerate(steps))
     return f"mkA {sa.coq_bool(fd)} {sa.coq_block(prog)} {st}"
 
@@ -357,6 +358,7 @@ def run_sequence(repo, prog, compile_only=True, max_qubits=64, assemble=True, mo
     mm.add_active_register = add
     peaks = []
     mused = []         # per step: M registers marked in use
+    mscr = []          # per step: M registers remembered as scratch of array measurements
     user = []          # per step: registers claimed by builder.new_register() so far (legitimately live)
     newregs = set()
     for i, s in enumerate(prog):
@@ -376,11 +378,13 @@ def run_sequence(repo, prog, compile_only=True, max_qubits=64, assemble=True, mo
         steps.append(sa.active_regs(conn))
         peaks.append(peak[0])
         mused.append(sorted(r.index for r, u in mm._used_meas_registers.items() if u))
+        mscr.append(sorted(r.index for r in getattr(mm, "_scratch_meas_registers", ())))
         collect_newregs([s], newregs)
         user.append(sorted(it.reg[r].reg.index for r in newregs if r in it.reg))
     # no conn.close(): it would execute what is still pending
     run_sequence.user = user
     run_sequence.mused = mused
+    run_sequence.mscr = mscr
     run_sequence.asm_failures = getattr(it, "asm_failures", 0)
     return steps, err, peaks
 
